@@ -60,3 +60,108 @@ Proof. vm_compute. reflexivity. Qed.
 Lemma C03_fact_conn_index_in_range :
   forall l r nl nr, (l < nl)%N -> (r < nr)%N -> (Generated.ConnFacts.conn_index l r nl nr < nl * nr)%N.
 Proof. intros l r nl nr Hl Hr. unfold Generated.ConnFacts.conn_index. nia. Qed.
+
+(* ==================================================================================================================
+   analysis/lattice.rs: "reviewed" turned into "proved" (Model/LatticeP.v, Proofs/LatticePProofs.v).
+   LatticeP models the three parallel arrays as the code keeps them and returns `PPanic site` exactly where Rust's
+   indexing, usize subtraction, debug assertion, i32 addition (overflow checks) would panic, `PUB` where get_unchecked
+   would leave the table; it is compared with the real Lattice on well-formed AND deliberately ill-formed nodes on every run. *)
+From SudachiVerif Require Import Model.LatticeP Proofs.LatticePProofs Proofs.LatticeSitesClassified.
+From SudachiVerif Require Generated.LatticeSites.
+
+(* ConnectionMatrix::cost(left, right) with both ids below the dimensions of a matrix whose table has num_left*num_right
+   entries: the three debug assertions hold and the unchecked read is inside the table *)
+Theorem C03_conn_cost_in_table :
+  forall (dbg : bool) (nl nr : N) (data : list Z), matrix_ok nl nr data = true ->
+  forall l r, (l < nl)%N -> (r < nr)%N -> exists c, pconn dbg nl nr data l r = POk c.
+Proof. exact pconn_ok. Qed.
+Print Assumptions C03_conn_cost_in_table.
+
+(* One Lattice object through ANY number of analyses, starting from ANY earlier state L0 (outer vectors of any lengths,
+   stale rows): each analysis = reset(len), insert(node) for candidate words in any order, connect_eos, fill_top_path,
+   node(id) for every id of the path (what build_lattice + resolve_best_path do).
+   round_wf: 1 <= len <= 65535; every node has begin < end <= len and ids below the matrix dimensions; at most 65535
+   words end at the same boundary.
+   Then no index expression, no usize subtraction, no unwrap, no debug assertion panics, the connection matrix is never
+   read outside its table, and fill_top_path terminates: the only possible panic is the i32 addition under overflow
+   checks (excluded by C03_no_overflow_if_bounded within its cost bound; the recorded finding beyond it). *)
+Theorem C03_lattice_no_index_panic :
+  forall (dbg ovf : bool) (nl nr : N) (data : list Z), matrix_ok nl nr data = true ->
+  forall (rs : list (nat * list node)) (L0 : plat),
+    forallb (round_wf nl nr data) rs = true ->
+    no_index_panic (prounds dbg ovf nl nr data L0 rs).
+Proof. exact lattice_no_index_panic. Qed.
+Print Assumptions C03_lattice_no_index_panic.
+
+(* without overflow checks (release profile: the additions wrap) nothing panics at all *)
+Theorem C03_lattice_no_panic_release :
+  forall (dbg : bool) (nl nr : N) (data : list Z), matrix_ok nl nr data = true ->
+  forall (rs : list (nat * list node)) (L0 : plat),
+    forallb (round_wf nl nr data) rs = true ->
+    exists r, prounds dbg false nl nr data L0 rs = POk r.
+Proof. exact lattice_no_panic_release. Qed.
+Print Assumptions C03_lattice_no_panic_release.
+
+(* the index expressions / unwraps / casts / usize subtractions of lattice.rs, per function and in source order, are the
+   ones the model was written for *)
+Lemma C03_fact_lattice_sites : Generated.LatticeSites.lattice_fns = lattice_classified.
+Proof. vm_compute. reflexivity. Qed.
+(* ... and they are all of them: the per-function lists add up to the inventory counts of Generated/PanicSites.v *)
+Lemma C03_fact_lattice_sites_total :
+  inventory_count Generated.PanicSites.sites "analysis/lattice.rs" "index_expr" = Some Generated.LatticeSites.lattice_index_total
+  /\ inventory_count Generated.PanicSites.sites "analysis/lattice.rs" "unwrap" = Some Generated.LatticeSites.lattice_unwrap_total
+  /\ inventory_count Generated.PanicSites.sites "analysis/lattice.rs" "narrowing_cast" = Some Generated.LatticeSites.lattice_cast_total.
+Proof. vm_compute. repeat split; reflexivity. Qed.
+
+(* ==================================================================================================================
+   resolve_best_path and the accessors of Morpheme (Proofs/AccessorsNoPanic.v; the tables of InputBuffer are builder A's
+   Model/Buffer.v with the laws of Proofs/BufferCharProofs.v).  `None` in these models = an index / slice panic or a
+   failed debug assertion. *)
+From SudachiVerif Require Import Model.Buffer Proofs.BufferProofs Proofs.BufferCharProofs Proofs.AccessorsNoPanic Proofs.AccessorSitesClassified.
+From SudachiVerif Require Generated.AccessorSites.
+
+Fact C03_fact_buffer_cfg : cfg_ok the_cfg = true /\ guards_ok the_cfg = true.
+Proof. vm_compute. split; reflexivity. Qed.
+
+(* one step of resolve_best_path on a lattice node begin <= end <= number of characters of the rewritten text:
+   curr_slice_c and both to_curr_byte_idx answer, the `as u16` of the byte offsets are lossless, and the result node's
+   character and byte coordinates agree (rnode_ok) *)
+Theorem C03_resolve_node_ok :
+  forall o s (n : Lattice.node), wf_text o = true -> Reach the_cfg o s ->
+    (Lattice.nbeg n <= Lattice.nend n)%nat -> (Lattice.nend n <= char_len (cur s))%nat ->
+    exists rn sl, resolve_node (cur s) n = Some (rn, sl) /\ rnode_ok (cur s) rn
+                  /\ rn_bc rn = Lattice.nbeg n /\ rn_ec rn = Lattice.nend n.
+Proof. exact (resolve_node_ok the_cfg (proj1 C03_fact_buffer_cfg) (proj2 C03_fact_buffer_cfg)). Qed.
+Print Assumptions C03_resolve_node_ok.
+
+(* every node list that is a boundary-aligned chain of byte ranges over a reachable, non-empty buffer (what the
+   path-rewrite plugins and the A/B split leave: C01's path_ok_b): each range is the range of a result node whose
+   character coordinates are ch_idx of its ends, and begin / end / begin_c / end_c / surface all answer *)
+Theorem C03_chain_accessors_ok :
+  forall o s (p : list (nat * nat)), wf_text o = true -> Reach the_cfg o s -> cur s <> nil ->
+    path_ok_b (cur s) p = true ->
+    Forall (fun r => exists bc ec, ch_idx the_cfg (cur s) (fst r) = Some bc /\ ch_idx the_cfg (cur s) (snd r) = Some ec
+                                   /\ rnode_ok (cur s) (mkRN bc ec (fst r) (snd r))
+                                   /\ accessors_ok the_cfg s (mkRN bc ec (fst r) (snd r))) p.
+Proof. exact (chain_accessors_ok the_cfg (proj1 C03_fact_buffer_cfg)). Qed.
+Print Assumptions C03_chain_accessors_ok.
+
+(* the lattice and the accessors together: build_lattice resets the lattice to the number of characters of the built
+   buffer and inserts well-formed candidates; the nodes resolve_best_path walks over are inserted candidates, each
+   resolves to a result node without an index / slice panic, and every accessor of that result node answers
+   (okp ovf P x: x = POk v with P v, or - only with overflow checks - the i32 addition of connect_node) *)
+Theorem C03_accessors_no_index_panic :
+  forall (dbg ovf : bool) (nl nr : N) (data : list Z), matrix_ok nl nr data = true ->
+  forall (L0 : plat) o s (ns : list Lattice.node), wf_text o = true -> Reach the_cfg o s ->
+    round_wf nl nr data (char_len (cur s), ns) = true ->
+    okp ovf (fun p => Forall (fun n => exists rn sl, resolve_node (cur s) n = Some (rn, sl) /\ accessors_ok the_cfg s rn) p)
+        (pround_path dbg ovf nl nr data L0 (char_len (cur s)) ns).
+Proof. exact (lattice_path_accessors_ok the_cfg (proj1 C03_fact_buffer_cfg) (proj2 C03_fact_buffer_cfg)). Qed.
+Print Assumptions C03_accessors_no_index_panic.
+
+Lemma C03_fact_accessor_sites :
+  Generated.AccessorSites.buffer_accessor_fns = buffer_accessors_classified
+  /\ Generated.AccessorSites.resolve_best_path_sites = resolve_best_path_classified
+  /\ Generated.AccessorSites.resolve_best_path_calls = resolve_best_path_calls_classified
+  /\ Generated.AccessorSites.morpheme_accessors = morpheme_accessors_classified.
+Proof. vm_compute. repeat split; reflexivity. Qed.
